@@ -640,7 +640,7 @@ class HedTag:
         if not isinstance(other, HedTag):
             return False
 
-        if self.short_tag == other.short_tag:
+        if self.short_tag.casefold() == other.short_tag.casefold():
             return True
 
         if self.org_tag.casefold() == other.org_tag.casefold():
